@@ -96,6 +96,17 @@ CHECKS = {
         "is run on random cells/networks with all solver x backend pairs, random 2-3-way splits, manual stepping with "
         "build_init_and_step_fn and exact/padded checkpoint layouts; states and recordings compared to 1e-8.",
    note=TRUST + "Float runs compared to 1e-8. F6 (state returned after padded steps) was fixed in jaxley/integrate.py; the model follows the fixed code."),
+ "C11": dict(cat="proof", ref="DESIGN.md §4 C11",
+   technique="Lean 4 theorems on a hand model of the view machinery (filters, dense ranks, edges, lazy indexing) + step-by-step correspondence with the implementation on random selection chains",
+   text="Model of _reformat_index, _at_nodes/_at_edges, select, scope, loc, group/channel/synapse views, _set_inds_in_view, "
+        "_update_local_indices, __getitem__ and iteration. Theorems: a selection is a filter of the parent view by the scope's index "
+        "column (so chains are iterated filters and rows form a sub-list of the parent's), local indices are dense ranks (bounded, "
+        "strictly monotone, onto 0..k-1; same local index iff same global index), edges in view iff both ends selected and in the "
+        "parent view, [] indexing and iteration are the method chain by definition, channel views are exact when the channel is in view. "
+        "Correspondence: after every step of random chains (all index forms, both scopes, scope switches) nodes-in-view, edges-in-view "
+        "and the three local index columns agree; mutators through views touch exactly the rows in view.",
+   note=TRUST + "The model is hand-written; pandas/numpy primitives (isin, rank(method='dense'), unique, intersect1d, digitize) are restated in it. "
+        "Known finding N8 (channel/synapse view of a view without that channel returns the whole view); N2 (loc('all')) was fixed."),
 }
 
 def main():
